@@ -156,7 +156,7 @@ def div (c : Cfg) (a b : Nat) : Nat :=
       let sum := assign (n + 1) n (ursub n (assign (n - 1) n lexp) (assign (n - 1) n rexp))
       satTail n sum negative
     else
-      let l := (lexp + rexp) % 2 ^ (n - 1)                 -- `lexp += rexp` in operator/= too (as written)
+      let l := (lexp + twosComp (n - 1) rexp) % 2 ^ (n - 1) -- `lexp -= rexp` = lexp += twosComplement(rexp) (repair f65bb52)
       setSign n (assign (n - 1) n l) negative
 
 /-- unary minus -/
